@@ -95,6 +95,23 @@ Definition runtime_map_header : gtype :=
      GF (b "globalDepth") false [] [] (TInt U8); GF (b "globalShift") false [] [] (TInt U8);
      GF (b "writing") false [] [] (TInt U8); GF (b "clearSeq") false [] [] (TInt U64)].
 
+(* unsafetricks.go: the stack-allocated iterator MapCodec.Write hands to
+   runtime.mapiterinit, and go1.24's runtime.linknameIter which that function
+   actually fills in (key, elem, typ, it *maps.Iter): recorded here only to state
+   their compatibility as an example; iteration itself is not modelled *)
+Definition mapiter_type : gtype :=
+  TStruct (b "mapiter") (b "github.com/philpearl/avro")
+    [GF (b "key") false [] [] TUnsafePtr; GF (b "elem") false [] [] TUnsafePtr; GF (b "t") false [] [] TUnsafePtr;
+     GF (b "h") false [] [] TUnsafePtr; GF (b "buckets") false [] [] TUnsafePtr; GF (b "bptr") false [] [] TUnsafePtr;
+     GF (b "overflow") false [] [] TUnsafePtr; GF (b "oldoverflow") false [] [] TUnsafePtr;
+     GF (b "startBucket") false [] [] (TInt UPtr); GF (b "offset") false [] [] (TInt U8); GF (b "wrapped") false [] [] TBool;
+     GF (b "B") false [] [] (TInt U8); GF (b "i") false [] [] (TInt U8);
+     GF (b "bucket") false [] [] (TInt UPtr); GF (b "checkBucket") false [] [] (TInt UPtr)].
+Definition linkname_iter_type : gtype :=
+  TStruct (b "linknameIter") (b "runtime")
+    [GF (b "key") false [] [] TUnsafePtr; GF (b "elem") false [] [] TUnsafePtr;
+     GF (b "typ") false [] [] (TPtr TBool); GF (b "it") false [] [] (TPtr TBool)].
+
 (* [alloc_type mapnew c t]: the Go type [c.New(r)] allocates, for a codec c built
    for the Go type t; None = New returns nil (nullCodec; unions of only such).
    [mapnew] is MapCodec.New's choice, the one site that was repaired:
